@@ -522,6 +522,29 @@ func (m *machine) install(rt *rapid.T) {
 		m.cls("install=replaced")
 	}
 	m.checkInstalled(rt, src, b, v, before, after, existing, newMeta)
+	if !m.dead && rapid.IntRange(0, 2).Draw(rt, "sourceRewrittenInPlace") == 0 {
+		// the owner of the source goes on working on it: every regular file below the source is
+		// rewritten IN PLACE (same inode). What was installed is the library's own copy
+		m.cls("source-rewritten-in-place-after-install")
+		filepath.Walk(filepath.Join(m.base, fmt.Sprintf("src%d", m.nsrc)), func(p string, fi os.FileInfo, err error) error {
+			if err == nil && fi.Mode().IsRegular() {
+				if f, err := os.OpenFile(p, os.O_WRONLY|os.O_TRUNC, 0); err == nil {
+					f.WriteString("#!/bin/sh\necho 'rewritten by the owner of the source'\n")
+					f.Close()
+				}
+			}
+			return nil
+		})
+		want := append([]Entry{}, m.static...)
+		for _, n := range m.names() {
+			want = append(want, m.model[n].tree...)
+		}
+		sort.Slice(want, func(i, j int) bool { return want[i].Path < want[j].Path })
+		if got := m.snap(rt); render(got) != render(want) {
+			m.fail(rt, "C20:install-result:installed-files-change-with-the-source", "after the installation the source was rewritten in place; the installed plugin changed with it (the installed files share storage with the source).\nmodel:\n%sdisk:\n%s", render(want), render(got))
+			m.dead = true
+		}
+	}
 }
 
 func (m *machine) checkRefused(rt *rapid.T, src Src, v verdict, before, after []Entry, err error) {
